@@ -225,7 +225,75 @@ func mergeHeaps(e *Engine, g *Term, a, b map[int]*Obj) map[int]*Obj {
 	return h
 }
 
+// reflect.Value is represented as the zero struct of its type with field 0 replaced by the wrapped executor value;
+// *reflect.MapIter as a heap cell {0: map iterator, 1: current (key, value)}. Only the few reflect functions used by
+// sortref.mustMapIterator are modelled.
+func reflectValue(t types.Type, payload Value) Value {
+	z := zero(t).(StructV)
+	f := append([]Value(nil), z.F...)
+	f[0] = payload
+	return StructV{f}
+}
+
+func installReflectMaps(e *Engine) {
+	e.intercept["reflect.ValueOf"] = func(e *Engine, fr *Frame, c *Ctx, a []Value, cc *ssa.CallCommon) (Value, bool) {
+		return reflectValue(cc.Signature().Results().At(0).Type(), a[0]), true
+	}
+	mapOf := func(v Value) MapV {
+		iv, ok := v.(StructV).F[0].(IfaceV)
+		if !ok || len(iv.Alts) != 1 {
+			unsup("reflect model: Value does not wrap a single-typed interface value")
+		}
+		mv, ok := iv.Alts[0].V.(MapV)
+		if !ok {
+			unsup("reflect model: Value does not wrap a map")
+		}
+		return mv
+	}
+	e.intercept["(reflect.Value).Len"] = func(e *Engine, fr *Frame, c *Ctx, a []Value, cc *ssa.CallCommon) (Value, bool) {
+		return IntV{e.mapLen(c, mapOf(a[0]))}, true
+	}
+	e.intercept["(reflect.Value).MapRange"] = func(e *Engine, fr *Frame, c *Ctx, a []Value, cc *ssa.CallCommon) (Value, bool) {
+		it := e.rangeMap(c, mapOf(a[0]))
+		id := e.newObj(c, &Obj{Val: StructV{[]Value{it, TupleV{}}}})
+		return PtrV{[]PtrAlt{{G: TTrue, Obj: id}}}, true
+	}
+	e.intercept["(*reflect.MapIter).Next"] = func(e *Engine, fr *Frame, c *Ctx, a []Value, cc *ssa.CallCommon) (Value, bool) {
+		p := a[0].(PtrV)
+		if len(p.Alts) != 1 || p.Alts[0].Obj < 0 {
+			unsup("reflect model: MapIter pointer with alternatives")
+		}
+		cell := c.S.Heap[p.Alts[0].Obj].Val.(StructV)
+		itv := cell.F[0].(IterV)
+		// key and element types: from the first candidate (string keys in the code under test)
+		it := c.S.Heap[itv.Obj]
+		var kz, vz Value = StrC(""), nil
+		for _, cd := range it.Cands {
+			if !cd.Tomb {
+				vz = cd.V
+				break
+			}
+		}
+		tup := e.nextMapZ(c, itv, kz, vz)
+		c.S.Heap[p.Alts[0].Obj] = &Obj{Val: StructV{[]Value{itv, tup}}, Epoch: c.S.Heap[p.Alts[0].Obj].Epoch}
+		return tup.E[0], true
+	}
+	e.intercept["(*reflect.MapIter).Key"] = func(e *Engine, fr *Frame, c *Ctx, a []Value, cc *ssa.CallCommon) (Value, bool) {
+		p := a[0].(PtrV)
+		cell := c.S.Heap[p.Alts[0].Obj].Val.(StructV)
+		return reflectValue(cc.Signature().Results().At(0).Type(), cell.F[1].(TupleV).E[1]), true
+	}
+	e.intercept["(reflect.Value).String"] = func(e *Engine, fr *Frame, c *Ctx, a []Value, cc *ssa.CallCommon) (Value, bool) {
+		s, ok := a[0].(StructV).F[0].(StrV)
+		if !ok {
+			unsup("reflect model: String of a non-string Value")
+		}
+		return s, true
+	}
+}
+
 func installReflect(e *Engine) {
+	installReflectMaps(e)
 	jp := "github.com/go-openapi/jsonpointer."
 	e.intercept[jp+"getSingleImpl"] = func(e *Engine, fr *Frame, c *Ctx, a []Value, _ *ssa.CallCommon) (Value, bool) {
 		v := e.getSingle(fr, c, a[0].(IfaceV), a[1].(StrV))
